@@ -6,6 +6,10 @@ _NOTE = ("Bounded: holds for all values within the bounds recorded in the eviden
 _TECH = "symbolic execution of the real Python code on z3-backed proxy values (BV64/Float64/Real), branch decisions and obligations decided by z3, counterexamples replayed concretely"
 
 CLAIMS = {
+    "C18": {
+        "text": "Bounded symbolic model checking of the real discover() (both search loops, the datagram protocol, both decoders, the factory) on a virtual-time loop with stubbed UDP: response datagrams built from the vendor format with free bytes per part (commas allowed in the AT5 name), duplicates, same-id twins, request echoes, wrong part counts, misplaced id, the other generation's format, invalid UTF-8, short free datagrams, arriving at solver-chosen instants; z3 shows at most three fixed requests at 0.5 s spacing to the right address/port (broadcast and unicast), stop after the first interval with an answer, return by 1.5 s, exactly one correct entry per valid response, nothing for anything else, and clients with the right model and TCP port.",
+        "note": _NOTE, "technique": _TECH, "design_ref": "DESIGN.md section 6 C18",
+    },
     "C14": {
         "text": "Bounded symbolic model checking of the refresh behaviour of both API generations: after the real handshake the console drops the link at a solver-chosen instant, its AC/zone state moves meanwhile (free record bytes), reconnects are refused a solver-chosen number of times (also: the loss shows up as a write error on a zero-retry or retried command); on the new connection the first two frames must be the AC-status and zone/group-status requests at the very instant of reconnection, a solver-chosen getter must equal the new report, and an unchanged refresh notifies nobody; AirTouch 4: with the instants of unsolicited group reports as z3 Reals, group-status requests must appear exactly at last report + 300 s and every 300 s of continued silence.",
         "note": _NOTE, "technique": _TECH, "design_ref": "DESIGN.md section 6 C14",
